@@ -172,6 +172,17 @@ Theorem format_independent_on_trees : forall rf f T d,
 Proof. exact load_sim. Qed.
 Print Assumptions format_independent_on_trees.
 
+(* ... and with the model of go-zero's own number re-rendering ([rf_go]: lang.Repr on the YAML path,
+   encoding/json's float encoder on the TOML path): for EVERY type of the family and EVERY document
+   satisfying the two boolean family predicates, the three model pipelines
+   (yaml.v2 + toStringKeyMap + JSON | go-toml + JSON | JSON) give the same verdict and deeply equal values *)
+Theorem three_model_pipelines_agree : forall T d,
+  fam_fields T = true -> leaves_ok rf_go d = true -> float_positions_ok T d = true ->
+  rsim gsim (load_doc rf_go T FYaml d) (load_doc rf_go T FJson d) /\
+  rsim gsim (load_doc rf_go T FToml d) (load_doc rf_go T FJson d).
+Proof. exact three_pipelines_lemma. Qed.
+Print Assumptions three_model_pipelines_agree.
+
 (* mapping's own front ends — mapping.UnmarshalYamlBytes / UnmarshalTomlBytes (and the Reader
    variants, which read everything and delegate) against mapping.UnmarshalJsonBytes: the same
    converters, then the unmarshaller with EXACT keys and no conf layer.  [flok_fields T m]: the
